@@ -17,6 +17,22 @@ import sys
 VERIF = os.path.dirname(os.path.dirname(os.path.abspath(__file__)))
 
 
+KAURI_KERNEL_FIXES = {"366c281", "8a1e56b"}
+KAURI_KERNEL_SHIM = '''
+
+
+# merge of the fixes 366c281 / 8a1e56b of /repo (kernel handed to the compiled code as a writable float64 array) into a tree
+# whose refactoring rewrote Kauri._compute_kernel - appended by /verif/tools/benign_verify.py, not part of the refactoring
+def _merged_kernel_fix(method):
+    def _compute_kernel(self, X, y=None):
+        return np.require(method(self, X, y), dtype=np.float64, requirements="W")
+    return _compute_kernel
+
+
+Kauri._compute_kernel = _merged_kernel_fix(Kauri._compute_kernel)
+'''
+
+
 def sh(cmd, **kw):
     return subprocess.run(cmd, shell=True, capture_output=True, text=True, **kw)
 
@@ -39,6 +55,8 @@ def main():
     res["patch_applies"] = ap.returncode == 0
     if ap.returncode != 0:
         res["apply_error"] = ap.stderr[-400:]
+    # a local commit "base + refactoring": --3way below has something to merge against and a failed merge can be undone
+    sh(f"git -C {wt} add -A && git -C {wt} -c user.email=verif@local -c user.name=verif commit -q -m refactoring")
     # later commits of /repo on top (three-way, so that a refactoring of neighbouring lines does not block them)
     later = sh(f"git -C /repo rev-list --reverse {base}..HEAD").stdout.split()
     res["later_commits"] = {}
@@ -50,6 +68,19 @@ def main():
             a = sh(f"git -C {wt} apply --3way {d}")
         res["later_commits"][c[:7]] = "applied" if a.returncode == 0 else "CONFLICT: " + a.stderr[-200:]
         os.remove(d)
+        if a.returncode == 0:
+            sh(f"git -C {wt} add -A && git -C {wt} -c user.email=verif@local -c user.name=verif commit -q -m fix-{c[:7]}")
+        if a.returncode != 0:
+            # the refactoring rewrote the very lines the fix touches: put the refactored files back (no conflict markers)
+            # and merge the fix by hand where I know how to
+            sh(f"git -C {wt} reset -q --hard HEAD")
+            if c[:7] in KAURI_KERNEL_FIXES:
+                kp = os.path.join(wt, "gemclus/tree/kauri.py")
+                src_k = open(kp).read()
+                if "_merged_kernel_fix" not in src_k:
+                    open(kp, "a").write(KAURI_KERNEL_SHIM)
+                    sh(f"git -C {wt} add -A && git -C {wt} -c user.email=verif@local -c user.name=verif commit -q -m shim")
+                res["later_commits"][c[:7]] = "merged by hand (shim around Kauri._compute_kernel)"
     sh(f"cp /repo/gemclus/tree/_utils.cpp /repo/gemclus/tree/_utils.cpython-312-x86_64-linux-gnu.so {wt}/gemclus/tree/")
     demo = f"/tmp/bnv/{name}_demo.py"
     if os.path.exists(os.path.join(src, "demo.py")):
@@ -60,7 +91,7 @@ def main():
             res["demo_on_changed_rc"] = d1.returncode
         except subprocess.TimeoutExpired:
             res["demo_on_changed_rc"] = "timeout"
-    res["diffstat"] = sh(f"git -C {wt} diff --stat").stdout.strip().split("\n")[-1:]
+    res["diffstat"] = sh(f"git -C {wt} diff --stat {base}").stdout.strip().split("\n")[-1:]
     out = {}
     for pid in checks:
         e = dict(os.environ, GCVERIF_REPO=wt, GCVERIF_EVIDENCE_DIR=f"/tmp/gcverif-bn-evidence/{name}",
@@ -72,6 +103,12 @@ def main():
             out[pid]["inconclusive"] = [l[:400] for l in r.stdout.split("\n") if l.startswith("INCONCLUSIVE")][:3]
         if r.returncode not in (0, 1, 2):
             out[pid]["tail"] = (r.stdout + r.stderr)[-600:]
+    dst0 = os.path.join(VERIF, "benign", name, "meta.json")
+    if "--checks" in sys.argv and os.path.exists(dst0):
+        # a partial re-run: keep the results of the other checks
+        prev = json.load(open(dst0)).get("checks", {})
+        prev.update(out)
+        out = prev
     res["checks"] = out
     res["alarms"] = [k for k, v in out.items() if v["rc"] == 1]
     res["inconclusive"] = [k for k, v in out.items() if v["rc"] == 2]
